@@ -29,9 +29,9 @@
   tables mirror the repaired code, the statements that excluded the defective classes are now
   unconditional (`C13_quantizers_closed`, `C13_table_complete`, `C13_quantizer_options_emitted`,
   `C13_dropped_read_args`) and the former counterexamples are regression witnesses
-  (`C13_*_fixed_witness`) evaluated at the old failing inputs.  Still recorded, not in this model
-  (state, not configuration): QAdaptiveActivation quantizes with the integer bits assigned by the
-  previous call (known/C13.json).
+  (`C13_*_fixed_witness`) evaluated at the old failing inputs.  Outside this model (state, not
+  configuration) and repaired as well (1555fbd): QAdaptiveActivation quantized with the integer
+  bits assigned by the previous call; the behavioural tie keeps the trained-EMA regression models.
 -/
 import QKV.Lemmas.LayerConfig
 import QKV.Model.LayerConfigTables
